@@ -1,19 +1,34 @@
 """SCMP constructs the C14 model depends on -> Gen/ScmpConfig.v
-(src, need, emit, missing, re are injected by tools/gen.py)
+(src, need, expect, emit, missing, re are injected by tools/gen.py)
 
-Extracted from /repo on every run, each with a loud failure when the construct disappears:
-  * SCMP_ERROR_MAX_PACKET_SIZE,
-  * for every SCMP error kind: its type number, HEADER_SIZE_BYTES, and the fact that its
-    `from_offending_packet_length` still is the saturating formula the model writes down,
-  * that every error message's `required_size`/`encode_unchecked` derive the layout from
-    (offending_packet.len(), header_and_extensions_size), and that `ScionPacket::into_raw` /
-    `encode_unchecked` pass the REPLY's own `header.required_size()`,
-  * the variant list of `ScmpMessageExt::is_error`,
-  * the single message kind `DefaultEchoHandler` answers, and the fields it copies.
+HARD (`need`): the constants and tables the model IMPORTS -- SCMP_ERROR_MAX_PACKET_SIZE, the
+message type numbers, every error kind's HEADER_SIZE_BYTES, the variant list of `is_error`, the
+message kinds the echo handler answers, the type bounds of the two "never answer an SCMP error"
+guards.  Their regular expressions only look for the number / the variant names.
+
+SOFT (`expect`): every mirrored statement whose behaviour the C14 harness observes on the real
+code -- the truncation formula (CLay cases call the layouts directly), the encoders and the header
+size they are handed (CEnc), the echo handler (CHnd, CStr), the error handler and the receive
+loop (CStr), pocketscion's reply path (CSim, CSimEcho, CNet), the gateway (CEnc src 2).  They pin
+operators, constants and callee names, not local names or statement layout.
 """
 
 ERR_KINDS = ["DestinationUnreachable", "PacketTooBig", "ParameterProblem",
              "ExternalInterfaceDown", "InternalConnectivityDown"]
+
+def _fn_body(text, sig_rx):
+    """text of the function whose signature matches sig_rx, up to the next item at the same or a
+    smaller indentation (rough, good enough to scope a search)"""
+    m = re.search(sig_rx, text)
+    if not m:
+        return None
+    start = m.start()
+    line_start = text.rfind("\n", 0, start) + 1
+    line = text[line_start:text.find("\n", start)]
+    indent = len(line) - len(line.lstrip(" "))
+    end_rx = re.compile(r"\n" + " " * indent + r"\}\n")
+    e = end_rx.search(text, m.end())
+    return text[start:(e.end() if e else len(text))]
 
 def generate():
     lay_rel = "crates/libs/sciparse/src/proto/payload/scmp/layout.rs"
@@ -23,123 +38,132 @@ def generate():
     pkt_rel = "crates/libs/sciparse/src/proto/packet/model.rs"
     echo_rel = "crates/scion-stack/src/stack/scmp_handler/echo.rs"
     err_rel = "crates/scion-stack/src/stack/scmp_handler/error.rs"
+    sock_rel = "crates/scion-stack/src/stack/socket.rs"
     sim_rel = "crates/pocketscion/src/network/local/simulator.rs"
-    lay, mod, typ, view = src(lay_rel), src(mod_rel), src(typ_rel), src(view_rel)
-    pkt, echo, errh, sim = src(pkt_rel), src(echo_rel), src(err_rel), src(sim_rel)
-
-    m = need(lay, r"pub const SCMP_ERROR_MAX_PACKET_SIZE: usize = (\d+);", "SCMP_ERROR_MAX_PACKET_SIZE", lay_rel)
-    maxsz = int(m.group(1)) if m else 0
-
-    # message type numbers (enum discriminants and both conversion tables must agree)
-    types = {}
-    for name in ERR_KINDS + ["EchoRequest", "EchoReply", "TracerouteRequest", "TracerouteReply"]:
-        m1 = need(typ, rf"\b{name} = (\d+),", f"ScmpMessageType::{name} discriminant", typ_rel)
-        m2 = need(typ, rf"(\d+) => ScmpMessageType::{name},", f"From<u8> arm for {name}", typ_rel)
-        m3 = need(typ, rf"ScmpMessageType::{name} => (\d+),", f"From<ScmpMessageType> arm for {name}", typ_rel)
-        if m1 and m2 and m3:
-            if not (m1.group(1) == m2.group(1) == m3.group(1)):
-                missing.append(f"{typ_rel}: ScmpMessageType::{name}: discriminant and conversion tables disagree")
-            types[name] = int(m1.group(1))
-        else:
-            types[name] = 0
-
-    # per error kind: header size + the truncation formula, statement by statement
-    formula = (r"pub fn from_offending_packet_length\(\s*offending_packet_length: usize,\s*header_and_extensions_size: usize,\s*\) -> Self \{\s*"
-               r"let max_payload = SCMP_ERROR_MAX_PACKET_SIZE\.saturating_sub\(header_and_extensions_size\);\s*"
-               r"let max_offending_len = max_payload\.saturating_sub\(Self::HEADER_SIZE_BYTES\);\s*"
-               r"let included_offending = offending_packet_length\.min\(max_offending_len\);\s*"
-               r"Self \{\s*payload_length: Self::HEADER_SIZE_BYTES \+ included_offending,\s*\}\s*\}")
-    rng = (r"pub const fn offending_packet_rng\(&self\) -> BitRange \{\s*BitRange::new\(\s*Self::HEADER_SIZE_BYTES \* 8,\s*"
-           r"self\.payload_length\.saturating_sub\(Self::HEADER_SIZE_BYTES\) \* 8,\s*\)\s*\}")
-    kinds = []
-    for name in ERR_KINDS:
-        blk = need(lay, rf"impl Scmp{name}Layout \{{\s*/// The size of the header in bytes\.\s*pub const HEADER_SIZE_BYTES: usize = (\d+);(.*?)\nimpl TryFrom<&\[u8\]> for Scmp{name}Layout",
-                   f"Scmp{name}Layout block", lay_rel, re.S)
-        hs = 0
-        if blk:
-            hs = int(blk.group(1))
-            body = blk.group(2)
-            if not re.search(formula, body):
-                missing.append(f"{lay_rel}: Scmp{name}Layout::from_offending_packet_length is no longer the saturating formula of the model")
-            if not re.search(rng, body):
-                missing.append(f"{lay_rel}: Scmp{name}Layout::offending_packet_rng changed")
-            if not re.search(r"fn size_bytes\(&self\) -> usize \{\s*self\.payload_length\s*\}", body):
-                missing.append(f"{lay_rel}: Scmp{name}Layout::size_bytes changed")
-        kinds.append((types[name], hs))
-        # model.rs: required_size and encode_unchecked derive the layout from (len, header size)
-        need(mod, rf"impl PayloadEncode for Scmp{name} \{{\s*#\[inline\]\s*fn required_size\(&self, header_and_extensions_size: usize\) -> usize \{{\s*"
-                  rf"Scmp{name}Layout::from_offending_packet_length\(\s*self\.offending_packet\.len\(\),\s*header_and_extensions_size,\s*\)\s*\.size_bytes\(\)",
-             f"Scmp{name}::required_size", mod_rel)
-        enc = need(mod, rf"impl PayloadEncode for Scmp{name} \{{(.*?)\n\}}\n", f"Scmp{name} PayloadEncode impl", mod_rel, re.S)
-        if enc:
-            e = enc.group(1)
-            for what, rx in [
-                ("layout from (len, header size)", r"let l = L::from_offending_packet_length\(\s*self\.offending_packet\.len\(\),\s*header_and_extensions_size,\s*\);"),
-                ("quote = prefix copy", r"let range = l\.offending_packet_rng\(\)\.aligned_byte_range\(\);\s*let offending_packet_len = range\.end - range\.start;\s*buf\.get_unchecked_mut\(range\)\s*\.copy_from_slice\(&self\.offending_packet\[\.\.offending_packet_len\]\);"),
-                ("type written", rf"L::TYPE_RNG,\s*ScmpMessageType::{name}\.into\(\),"),
-                ("returns message_length", r"let message_length = l\.size_bytes\(\);"),
-            ]:
-                if not re.search(rx, e):
-                    missing.append(f"{mod_rel}: Scmp{name}::encode_unchecked: {what}")
-
-    # the caller passes the reply's own header size
-    need(pkt, r"fn required_size\(&self\) -> usize \{\s*self\.header\.required_size\(\) \+ self\.payload\.required_size\(self\.header\.required_size\(\)\)\s*\}",
-         "ScionPacket::required_size passes header.required_size()", pkt_rel)
-    need(pkt, r"unsafe fn encode_unchecked\(&self, buf: &mut \[u8\]\) -> usize \{\s*let header_size = self\.header\.required_size\(\);\s*let payload_size = self\.payload\.required_size\(header_size\);",
-         "ScionPacket::encode_unchecked header_size", pkt_rel)
-    need(pkt, r"\.encode_unchecked\(payload_buf, &self\.header\.address, header_size\);",
-         "ScionPacket::encode_unchecked passes header_size to the payload", pkt_rel)
-    need(pkt, r"pub fn into_raw\(self\) -> ScionRawPacket \{\s*let header_size = self\.header\.required_size\(\);\s*let payload_size = self\.payload\.required_size\(header_size\);",
-         "ScionPacket::into_raw header_size", pkt_rel)
-
-    # is_error variant list
-    m = need(view, r"fn is_error\(&self\) -> bool \{\s*matches!\(\s*self\.to_ref\(\),\s*(.*?)\s*\)\s*\}", "ScmpMessageExt::is_error", view_rel, re.S)
-    is_err = []
-    if m:
-        for v in re.findall(r"ScmpMessageView::(\w+)\(_\)", m.group(1)):
-            if v not in types:
-                missing.append(f"{view_rel}: is_error names unknown variant {v}")
-            else:
-                is_err.append(types[v])
-
-    # echo handler: answers exactly one view variant, copies identifier / sequence number / data
-    m = need(echo, r"let reply_msg = match p\.scmp\(\)\.message\(\) \{\s*ScmpMessageView::(\w+)\(r\) => \{(.*?)\}\s*_ => return Ok\(None\),\s*\};",
-             "DefaultEchoHandler: single answered variant + default None", echo_rel, re.S)
-    answered = []
-    if m:
-        answered.append(types.get(m.group(1), 0))
-        if not re.search(r"ScmpMessage::EchoReply\(ScmpEchoReply::new\(\s*r\.identifier\(\),\s*r\.sequence_number\(\),\s*r\.data\(\)\.to_vec\(\),\s*\)\)", m.group(2)):
-            missing.append(f"{echo_rel}: echo reply no longer built from identifier/sequence_number/data of the request")
-    need(echo, r"\.try_as_scmp\(\)\s*\.context\(", "DefaultEchoHandler: try_as_scmp first", echo_rel)
-    need(echo, r"\.path\(\)\s*\.to_model\(\)\s*\.try_into_reversed\(\)", "DefaultEchoHandler: reversed path", echo_rel)
-    need(echo, r"let reply = ScionScmpPacket::new\(dst, src, reply_path, reply_msg\);", "DefaultEchoHandler: src/dst swapped", echo_rel)
-    need(echo, r"Ok\(None\) => None,\s*Err\(e\) => \{[^}]*\s*None\s*\}", "DefaultEchoHandler::handle: errors give None", echo_rel, re.S)
-
-    # error handler: never replies
-    need(errh, r"if !scmp_pkg\.scmp\(\)\.message\(\)\.is_error\(\) \{[^}]*return None;\s*\}", "ScmpErrorHandler: non-errors ignored", err_rel)
-    need(errh, r"receiver\.report_scmp_error\(scmp_error\.clone\(\), path\);\s*\}\);\s*None\s*\}", "ScmpErrorHandler: reports and returns None", err_rel)
-
-    # pocketscion: no reply to SCMP errors (known kinds through is_error, every other type below the
-    # threshold through the raw type number)
-    m = need(sim, r"ClassifiedPacketView::Scmp\(scmp_view\)\s*if scmp_view\.scmp\(\)\.message\(\)\.is_error\(\)\s*"
-                  r"\|\| u8::from\(scmp_view\.scmp\(\)\.message_type\(\)\) < (\d+) =>\s*\{\s*// Don't reply to SCMP Error Messages\s*return Ok\(None\);",
-             "pocketscion maybe_create_scmp_reply: no reply to SCMP errors (is_error || type < N)", sim_rel)
-    sim_thr = int(m.group(1)) if m else 0
-
-    # SNAP gateway: no reply to an inbound datagram that is an SCMP error (parseable header)
     pol_rel = "crates/snap/snap-dataplane/src/tunnel_gateway/packet_policy.rs"
     gwr_rel = "crates/snap/snap-dataplane/src/tunnel_gateway/gateway.rs"
+    lay, mod, typ, view = src(lay_rel), src(mod_rel), src(typ_rel), src(view_rel)
+    pkt, echo, errh, sock, sim = src(pkt_rel), src(echo_rel), src(err_rel), src(sock_rel), src(sim_rel)
     pol, gwr = src(pol_rel), src(gwr_rel)
-    m = need(pol, r"pub\(crate\) fn offending_is_scmp_error\(&self\) -> bool \{\s*match self \{\s*PacketPolicyError::MalformedPacket\(\.\.\) => false,\s*"
-                  r"PacketPolicyError::InvalidPathType\(view, _\)\s*\| PacketPolicyError::InvalidSourceAddress\(view\) => \{\s*"
-                  r"view\.header\(\)\.next_header\(\) == ProtocolNumber::Scmp\s*&& view\.payload\(\)\.first\(\)\.is_some_and\(\|scmp_type\| \*scmp_type < (\d+)\)",
-             "PacketPolicyError::offending_is_scmp_error", pol_rel)
-    gw_thr = int(m.group(1)) if m else 0
-    need(gwr, r"Err\(e\) if e\.offending_is_scmp_error\(\) => \{[^}]*\}\s*Err\(e\) => \{\s*tracing::debug!\(err=%e, \"Inbound datagram check failed\"\);",
-         "gateway: SCMP errors are not answered (guard arm before the reply arm)", gwr_rel, re.S)
-    need(gwr, r"fn create_scmp_error\(\s*err: PacketPolicyError,\s*local_addr: ScionHostAddr,\s*dst_addr: ScionAddr,\s*target_buf: &mut Packet,\s*\) -> Result<usize, EncodeError> \{\s*"
-              r"let scmp_message = create_inbound_scmp_error\(err\);\s*let scmp_packet_model = ScionScmpPacket::new\(\s*ScionAddr::new\(dst_addr\.isd_asn\(\), local_addr\),\s*dst_addr,\s*DpPath::Empty,\s*scmp_message,\s*\);\s*scmp_packet_model\.try_encode\(target_buf\)",
-         "gateway create_scmp_error: empty path, source = (dst ISD-AS, local address)", gwr_rel)
+
+    # ---------------------------------------------------------------- imported constants (HARD)
+    m = need(lay, r"\bSCMP_ERROR_MAX_PACKET_SIZE\s*:\s*usize\s*=\s*(\d+)\s*;", "SCMP_ERROR_MAX_PACKET_SIZE", lay_rel)
+    maxsz = int(m.group(1)) if m else 0
+
+    types = {}
+    for name in ERR_KINDS + ["EchoRequest", "EchoReply", "TracerouteRequest", "TracerouteReply"]:
+        m1 = need(typ, rf"\b{name}\s*=\s*(\d+)\s*,", f"ScmpMessageType::{name} discriminant", typ_rel)
+        types[name] = int(m1.group(1)) if m1 else 0
+        # the two conversion tables agree with the discriminant (observed by every received-packet case)
+        for rx, what in [(rf"(\d+)\s*=>\s*(?:ScmpMessageType|Self)::{name}\b", "From<u8>"),
+                         (rf"(?:ScmpMessageType|Self)::{name}\s*=>\s*(\d+)\b", "From<ScmpMessageType>")]:
+            mm = expect(typ, rx, f"{what} arm for {name}", typ_rel)
+            if mm and m1 and mm.group(1) != m1.group(1):
+                missing.append(f"{typ_rel}: ScmpMessageType::{name}: discriminant and {what} table disagree")
+
+    kinds = []
+    for name in ERR_KINDS:
+        blk = re.search(rf"impl Scmp{name}Layout \{{(.*?)\nimpl TryFrom<&\[u8\]> for Scmp{name}Layout", lay, re.S)
+        body = blk.group(1) if blk else lay
+        m = need(body if blk else "", r"\bHEADER_SIZE_BYTES\s*:\s*usize\s*=\s*(\d+)\s*;", f"Scmp{name}Layout::HEADER_SIZE_BYTES", lay_rel)
+        kinds.append((types[name], int(m.group(1)) if m else 0))
+        # the truncation formula (CLay cases observe it directly)
+        f = _fn_body(body, r"fn from_offending_packet_length\s*\(")
+        ok = f is not None and all(re.search(rx, f) for rx in [
+            r"SCMP_ERROR_MAX_PACKET_SIZE", r"saturating_sub", r"\.min\(|\bmin\(", r"HEADER_SIZE_BYTES"])
+        if not ok:
+            expect("", r"x", f"Scmp{name}Layout::from_offending_packet_length: 1232 - header - HEADER_SIZE, saturating, min with the offending length", lay_rel)
+        # the encoder derives its layout from (offending length, header size) and copies a prefix
+        enc = re.search(rf"impl PayloadEncode for Scmp{name} \{{(.*?)\n\}}\n", mod, re.S)
+        e = enc.group(1) if enc else ""
+        for what, rx in [
+            ("required_size from from_offending_packet_length(len, header size)", r"from_offending_packet_length\(\s*self\.offending_packet\.len\(\)\s*,\s*\w+\s*,?\s*\)"),
+            ("quote = prefix of offending_packet", r"copy_from_slice\(\s*&self\.offending_packet\[\s*\.\.\s*\w+\s*\]\s*\)"),
+            ("type written", rf"ScmpMessageType::{name}"),
+        ]:
+            if not re.search(rx, e):
+                expect("", r"x", f"Scmp{name} PayloadEncode: {what}", mod_rel)
+
+    # variants named by is_error (imported table)
+    f = _fn_body(view, r"fn is_error\s*\(\s*&self\s*\)")
+    is_err = []
+    if f is None:
+        need("", r"x", "ScmpMessageExt::is_error", view_rel)
+    else:
+        names = re.findall(r"ScmpMessageView::(\w+)\s*\(", f)
+        if not names:
+            need("", r"x", "ScmpMessageExt::is_error: variant list", view_rel)
+        for v in names:
+            if v in types:
+                if types[v] not in is_err:
+                    is_err.append(types[v])
+            else:
+                missing.append(f"{view_rel}: is_error names a variant without a type number: {v}")
+
+    # message kinds the echo handler answers (imported table): the arms of the match on message()
+    # that build a reply
+    f = _fn_body(echo, r"fn try_echo_reply\s*\(")
+    answered = []
+    if f is None:
+        need("", r"x", "DefaultEchoHandler::try_echo_reply", echo_rel)
+    else:
+        for v in re.findall(r"ScmpMessageView::(\w+)\s*\(\s*\w+\s*\)\s*(?:=>|\))", f):
+            if v in types and types[v] not in answered:
+                answered.append(types[v])
+        if not answered:
+            need("", r"x", "DefaultEchoHandler::try_echo_reply: answered message kinds", echo_rel)
+        for what, rx in [
+            ("reply carries identifier / sequence number / data of the request",
+             r"ScmpEchoReply::new\(\s*\w+\.identifier\(\)\s*,\s*\w+\.sequence_number\(\)\s*,\s*\w+\.data\(\)"),
+            ("SCMP view first (try_as_scmp)", r"try_as_scmp\(\)"),
+            ("reversed path", r"try_into_reversed\(\)|try_reverse\(\)"),
+            ("source and destination swapped", r"ScionScmpPacket::new\(\s*dst\s*,\s*src\s*,"),
+        ]:
+            expect(f, rx, f"DefaultEchoHandler: {what}", echo_rel)
+
+    # the two guards: type bounds (imported constants)
+    def bound(fbody, what, rel):
+        if fbody is None:
+            need("", r"x", what, rel)
+            return 0
+        m = re.search(r"<\s*(\d+)\b", fbody)
+        if m:
+            return int(m.group(1))
+        m = re.search(r"<=\s*(\d+)\b", fbody)
+        if m:
+            return int(m.group(1)) + 1
+        need("", r"x", what + ": type bound", rel)
+        return 0
+    f = _fn_body(sim, r"fn maybe_create_scmp_reply\s*\(")
+    guard = re.search(r"ClassifiedPacketView::Scmp\((\w+)\)\s*if(.*?)=>", f or "", re.S)
+    sim_thr = bound(guard.group(2) if guard else None, "pocketscion maybe_create_scmp_reply: no reply to SCMP errors (guard on the SCMP arm)", sim_rel)
+    if f is not None:
+        expect(f, r"is_error\(\)", "pocketscion maybe_create_scmp_reply: is_error()", sim_rel)
+        expect(f, r"return\s+Ok\(None\)", "pocketscion maybe_create_scmp_reply: guard returns no reply", sim_rel)
+        expect(f, r"try_reverse\(\)|try_into_reversed\(\)", "pocketscion maybe_create_scmp_reply: reversed path", sim_rel)
+    f = _fn_body(pol, r"fn offending_is_scmp_error\s*\(")
+    gw_thr = bound(f, "PacketPolicyError::offending_is_scmp_error", pol_rel)
+    if f is not None:
+        expect(f, r"ProtocolNumber::Scmp", "offending_is_scmp_error: next header SCMP", pol_rel)
+        expect(f, r"MalformedPacket\s*\([^)]*\)\s*=>\s*false", "offending_is_scmp_error: malformed datagrams are answered", pol_rel)
+    expect(gwr, r"offending_is_scmp_error\(\)", "gateway: SCMP errors are not answered", gwr_rel)
+    expect(gwr, r"ScionScmpPacket::new\(\s*ScionAddr::new\(\s*dst_addr\.isd_asn\(\)\s*,\s*local_addr\s*\)\s*,\s*dst_addr\s*,\s*DpPath::Empty\s*,",
+           "gateway create_scmp_error: empty path, source = (dst ISD-AS, local address)", gwr_rel)
+
+    # ---------------------------------------------------------------- mirrored statements (SOFT)
+    # the payload encoder is handed the packet's own header size
+    expect(pkt, r"self\.payload\.required_size\(\s*(?:self\.header\.required_size\(\)|\w+)\s*\)",
+           "ScionPacket: payload.required_size(header size)", pkt_rel)
+    expect(pkt, r"\.encode_unchecked\(\s*\w+\s*,\s*&self\.header\.address\s*,\s*\w+\s*\)",
+           "ScionPacket::encode_unchecked passes the header size to the payload encoder", pkt_rel)
+    expect(pkt, r"fn into_raw\(self\)", "ScionPacket::into_raw", pkt_rel)
+    # error handler: only errors, reports, never replies
+    expect(errh, r"is_error\(\)", "ScmpErrorHandler: non-errors ignored", err_rel)
+    expect(errh, r"report_scmp_error\(", "ScmpErrorHandler: reports to the receivers", err_rel)
+    # receive loop: SCMP goes to the handlers, replies are best effort, the loop continues
+    expect(sock, r"ProtocolNumber::Scmp\s*=>", "socket receive loop: SCMP branch", sock_rel)
+    expect(sock, r"handler\.handle\(", "socket receive loop: handlers are asked", sock_rel)
+    expect(sock, r"try_send\(", "socket receive loop: replies through try_send", sock_rel)
 
     body = f"""From Coq Require Import NArith List.
 Import ListNotations.
@@ -147,7 +171,7 @@ Local Open Scope N_scope.
 (* crates/libs/sciparse/src/proto/payload/scmp/layout.rs *)
 Definition SCMP_MAX : N := {maxsz}.
 (* (type number, HEADER_SIZE_BYTES) of every SCMP error kind whose layout has
-   from_offending_packet_length (checked to be the saturating formula) *)
+   from_offending_packet_length *)
 Definition scmp_error_kinds : list (N * N) := [{"; ".join(f"({t}, {h})" for t, h in kinds)}].
 (* variants named by ScmpMessageExt::is_error *)
 Definition scmp_is_error_types : list N := [{"; ".join(str(x) for x in is_err)}].
